@@ -53,14 +53,16 @@ def capture(tag):
     return deco
 
 def foreign(tag):
+    # (a tag ending in "~": the decorator exposes __wrapped__ but does not copy the attributes of what it wraps)
+    wraps = (lambda func: functools.wraps(func, updated=())) if tag.endswith("~") else functools.wraps
     def deco(func):
         if __import__("inspect").iscoroutinefunction(func):
-            @functools.wraps(func)
+            @wraps(func)
             async def awrapper(*args, **kwargs):
                 HUB.log("foreign", tag, None, None)
                 return await func(*args, **kwargs)
             return awrapper
-        @functools.wraps(func)
+        @wraps(func)
         def wrapper(*args, **kwargs):
             HUB.log("foreign", tag, None, None)
             return func(*args, **kwargs)
@@ -72,7 +74,7 @@ def t_cond(*a, **k):
 '''
 
 
-def contract_decorators(rng, names: List[str], n: int, n_foreign: int, fid: str) -> Tuple[List[str], int, int]:
+def contract_decorators(rng, names: List[str], n: int, n_foreign: int, fid: str, second_guise: bool = True) -> Tuple[List[str], int, int]:
     """Build a decorator stack (top -> bottom). Returns (lines, number of contract decorators, number of foreign)."""
     # bottom-up construction: at least one ensure before any snapshot
     stack = []  # bottom first
@@ -95,14 +97,15 @@ def contract_decorators(rng, names: List[str], n: int, n_foreign: int, fid: str)
     # insert foreign decorators at random positions strictly between / above contract decorators
     for j in range(n_foreign):
         pos = rng.randint(1, len(stack))
-        stack.insert(pos, "@foreign('F{}_{}')".format(j, fid))
+        stack.insert(pos, "@foreign('F{}_{}{}')".format(j, fid, "~" if second_guise and rng.random() < 0.4 else ""))
     return list(reversed(stack)), n, n_foreign
 
 
 def render_callable(rng, fid: str, params: List[Dict[str, Any]], kind: str, n_contract: int, n_foreign: int, abstract: str) -> Tuple[str, Dict[str, Any]]:
     names = c05.named(params)
     allnames = [p["name"] for p in params]
-    decos, nc, nf = contract_decorators(rng, names, n_contract, n_foreign, fid)
+    # (a foreign decorator which does not copy the attributes would lose __isabstractmethod__ by itself: only on concrete callables)
+    decos, nc, nf = contract_decorators(rng, names, n_contract, n_foreign, fid, second_guise=(abstract == "none"))
     sig = sig_text(params)
     # annotations on the first named parameter and the return value
     ann_sig = sig
